@@ -86,6 +86,7 @@ type Specs struct {
 	unorderedOK map[string]string
 	structInv map[string][]Clause
 	pureMethod map[string]bool
+	readerExt  []*regexp.Regexp
 }
 
 type Lemma struct {
@@ -155,6 +156,14 @@ func loadSpecs(w *World, trustedDir string) *Specs {
 		s.parseFile(f, false)
 	}
 	s.files = append(tf, files...)
+	w.readOnlyExt = func(name string) bool {
+		for _, r := range s.readerExt {
+			if r.MatchString(name) {
+				return true
+			}
+		}
+		return false
+	}
 	s.addGeneratedCopyContracts(w)
 	return s
 }
@@ -308,6 +317,10 @@ func (s *Specs) parseFile(path string, trusted bool) {
 			s.parseSpecFn(rest, path, ln)
 		case "pure":
 			s.pure[rest] = true
+		case "reader-external":
+			if r, err := regexp.Compile(rest); err == nil {
+				s.readerExt = append(s.readerExt, r)
+			}
 		case "pure-method":
 			s.pureMethod[rest] = true
 			s.w.declaredPure[rest] = true
